@@ -419,6 +419,10 @@ func (e *explorer) run() (states, transitions int, complete bool) {
 }
 
 func main() {
+	if ev.RacePass() {
+		racePass()
+		return
+	}
 	r := ev.Start("C14", "model_checking")
 	if r.Replay != "" {
 		replay(r)
@@ -448,6 +452,7 @@ func main() {
 	r.Assume("sequential half: single consumer, as the queue documents", "state = (list, inbox, inbox-read freshness) read from the real object through an overlay-added accessor",
 		"maximality is asserted among the messages the pop has drained (a Pop inside inboxReadFrequency serves the list first by design)")
 	conc(r, &exhaustive)
+	r.RaceReport(func(rep string) bool { return strings.Contains(rep, "ssv/queue.") })
 	r.Finish(exhaustive)
 }
 
